@@ -26,8 +26,10 @@ func (p *memPersister) Persist(ctx *sql.Context, data []byte) error {
 	return nil
 }
 
+const admin = "vadmin"
+
 // Fix is one engine over the in-memory backend with the `mysql` privilege database ENABLED and a
-// password-less super user root@localhost.
+// password-less ephemeral super user vadmin@localhost.
 type Fix struct {
 	Engine  *sqle.Engine
 	Pro     *memory.DbProvider
@@ -50,7 +52,12 @@ func NewFix(dbs, tbls []string) *Fix {
 	md.SetEnabled(true)
 	pers := &memPersister{}
 	md.SetPersister(pers)
-	md.AddRootAccount()
+	// the harness's own administrator: an EPHEMERAL super user (never persisted), so that what a
+	// Persist/Reload does to the persisted accounts cannot take the replayer's hands away
+	ed := md.Editor()
+	md.AddEphemeralSuperUser(ed, admin, "localhost", "")
+	ed.Close()
+	md.AddRootAccount() // a persisted super user nobody logs in as: its SHOW GRANTS must survive a reload too
 	f := &Fix{Engine: e, Pro: pro, MySQLDb: md, Pers: pers, Dbs: dbs, Tbls: tbls, nextID: 1, sess: map[string]*memory.Session{}}
 	for _, d := range dbs {
 		for _, t := range tbls {
@@ -61,9 +68,9 @@ func NewFix(dbs, tbls []string) *Fix {
 }
 
 func (f *Fix) resetTable(d, t string) {
-	f.Must("root", fmt.Sprintf("DROP TABLE IF EXISTS %s.%s", d, t))
-	f.Must("root", fmt.Sprintf("CREATE TABLE %s.%s (a INT PRIMARY KEY, b INT)", d, t))
-	f.Must("root", fmt.Sprintf("INSERT INTO %s.%s VALUES (1,10),(2,20)", d, t))
+	f.Must(admin, fmt.Sprintf("DROP TABLE IF EXISTS %s.%s", d, t))
+	f.Must(admin, fmt.Sprintf("CREATE TABLE %s.%s (a INT PRIMARY KEY, b INT)", d, t))
+	f.Must(admin, fmt.Sprintf("INSERT INTO %s.%s VALUES (1,10),(2,20)", d, t))
 }
 
 // Session returns THE session of an account name (client user = name, client address = localhost).
@@ -145,20 +152,20 @@ func (f *Fix) Must(user, q string) Res {
 func (f *Fix) Fingerprint() string {
 	var sb strings.Builder
 	for _, d := range f.Dbs {
-		r := f.Must("root", "SHOW TABLES FROM "+d)
+		r := f.Must(admin, "SHOW TABLES FROM "+d)
 		var names []string
 		for _, row := range r.Rows {
 			names = append(names, row[0])
 		}
 		sort.Strings(names)
 		for _, t := range names {
-			c := f.Must("root", fmt.Sprintf("SHOW CREATE TABLE %s.%s", d, t))
+			c := f.Must(admin, fmt.Sprintf("SHOW CREATE TABLE %s.%s", d, t))
 			sb.WriteString(c.Rows[0][1])
-			rows := f.Must("root", fmt.Sprintf("SELECT * FROM %s.%s ORDER BY 1", d, t))
+			rows := f.Must(admin, fmt.Sprintf("SELECT * FROM %s.%s ORDER BY 1", d, t))
 			fmt.Fprintf(&sb, "%v;", rows.Rows)
 		}
 	}
-	u := f.Must("root", "SELECT user, host FROM mysql.user ORDER BY 1, 2")
+	u := f.Must(admin, "SELECT user, host FROM mysql.user ORDER BY 1, 2")
 	fmt.Fprintf(&sb, "users=%v", u.Rows)
 	return sb.String()
 }
